@@ -6,14 +6,16 @@ Model: `VrpModel/C16.lean` (mirrors `costs.rs`, `fleet_reader.rs`, `validation/r
 Numbers are exact (`Int` entries and timestamps, `Rat` query times, scales and results); `f64` rounding is outside
 the model. Helper lemmas live in `VrpProofs/C16/*.lean`.
 
-Hypotheses that the code forces (each comes with a witness that the statement fails without it):
+Hypotheses that remain (each comes with a witness that the statement fails without it):
 * **S12a** `from, to < n` — for `to ≥ n` the flat index lands in another row (`index_boundary_witness`);
-* **D1** every matrix has a square number of entries — the builder compares *rounded* square roots, so a 5-entry matrix
-  passes as 2 × 2 (`builder_accepts_non_square_witness`);
-* **D2** the matrices of one profile have pairwise different `u64` keys (truncated timestamps) — the builder does not
-  look at timestamps (`builder_accepts_duplicate_timestamp_witness`);
-* **S28** every matrix name is a fleet profile — otherwise the reader maps the matrix by its list position
-  (`reader_positional_witness`).
+* **S28u** every matrix name is a fleet profile — a set in which *no* name is a fleet profile is mapped by list position
+  like unnamed matrices: documented positional behaviour, pinned by the repository's own `fleet_reader_test`
+  (`reader_all_unknown_is_positional`); *mixes* of fleet profile names and other names are rejected since 83519b0
+  (`mixed_known_names_rejected_noMix`; `reader_positional_witness` keeps the old behaviour as the regression variant
+  `ReaderMode.positional`).
+Former hypotheses that the repaired code (0684041, c805ac8, a68e4cc) now guarantees by itself: square matrices (D1),
+pairwise different `u64` keys within a profile (D2) — both are consequences of `build ms = .ok pr` (`build_ok`,
+`build_timed`, `awareCtx_of_build`) — and the unknown location's index behind the matrix (D3, `customIndex_outside`).
 -/
 set_option linter.unusedSimpArgs false
 set_option linter.unusedVariables false
@@ -35,33 +37,34 @@ example : flatIdx 3 1 2 < 3 * 3 ∧ (flatIdx 3 1 2 = flatIdx 3 2 1 → False) :=
 
 /-! ## time-agnostic routing -/
 
-/-- **agnostic_returns_entry**: an accepted untimed set of `n × n` matrices answers `(profile, from, to)` — at any
-    time, with any fallback — with the entry at `(from, to)` of the matrix carrying the vehicle's profile index:
-    the duration multiplied by the vehicle's scale, the distance as supplied. -/
+/-- **agnostic_returns_entry**: an accepted untimed set answers `(profile, from, to)` — at any time, with any
+    fallback — with the entry at `(from, to)` of the matrix carrying the vehicle's profile index: the duration
+    multiplied by the vehicle's scale, the distance as supplied (`n = pr.size`; every matrix is `n × n`). -/
 theorem agnostic_returns_entry (ms : List MatrixData) (pr : Provider) (hb : build ms = .ok pr)
-    (hunt : ∀ m ∈ ms, m.timestamp = none) (n : Nat) (hsq : ∀ m ∈ ms, m.durations.length = n * n)
+    (hunt : ∀ m ∈ ms, m.timestamp = none)
     (m : MatrixData) (hm : m ∈ ms) (p : Profile) (hp : p.index = m.index)
-    (frm dst : Nat) (hf : frm < n) (hd : dst < n) (t : Rat) (fb : Fallback) :
-    pr.size = n ∧
-    ∃ du di, entryDur m n frm dst = some du ∧ entryDist m n frm dst = some di ∧
+    (frm dst : Nat) (hf : frm < pr.size) (hd : dst < pr.size) (t : Rat) (fb : Fallback) :
+    m.durations.length = pr.size * pr.size ∧ m.distances.length = pr.size * pr.size ∧
+    ∃ du di, entryDur m pr.size frm dst = some du ∧ entryDist m pr.size frm dst = some di ∧
       pr.duration fb p frm dst t = some ((du : Rat) * p.scale) ∧ pr.distance fb p frm dst t = some (di : Rat) := by
-  have hsize := build_size ms pr hb n hsq
+  obtain ⟨_, hlenAll, hsq, _⟩ := build_ok ms pr hb
   obtain ⟨hpr, hrange⟩ := build_untimed ms pr hb hunt
-  have hlen := (build_ok ms pr hb).2.1 m hm
-  obtain ⟨du, hdu⟩ := entry_exists m.durations n frm dst (hsq m hm) hf hd
-  obtain ⟨di, hdi⟩ := entry_exists m.distances n frm dst (by rw [hlen]; exact hsq m hm) hf hd
+  have hlen := hlenAll m hm
+  obtain ⟨du, hdu⟩ := entry_exists m.durations pr.size frm dst (hsq m hm) hf hd
+  obtain ⟨di, hdi⟩ := entry_exists m.distances pr.size frm dst (by rw [hlen]; exact hsq m hm) hf hd
   have hpos := agnostic_position ms hrange m hm
   rw [← hp] at hpos
-  refine ⟨hsize, du, di, hdu, hdi, ?_⟩
-  rw [hpr, hsize]
-  obtain ⟨h1, h2⟩ := agnostic_unfold n (sortByIndex ms) fb p frm dst t m hpos
-  rw [h1, h2]
-  have e1 : durAt m (flatIdx n frm dst) = some (du : Rat) := by
+  refine ⟨hsq m hm, by rw [hlen]; exact hsq m hm, du, di, hdu, hdi, ?_⟩
+  obtain ⟨h1, h2⟩ := agnostic_unfold pr.size (sortByIndex ms) fb p frm dst t m hpos
+  have e1 : durAt m (flatIdx pr.size frm dst) = some (du : Rat) := by
     unfold durAt flatIdx; rw [hdu]; rfl
-  have e2 : distAt m (flatIdx n frm dst) = some (di : Rat) := by
+  have e2 : distAt m (flatIdx pr.size frm dst) = some (di : Rat) := by
     unfold distAt flatIdx; rw [hdi]; rfl
-  rw [e1, e2]
-  exact ⟨rfl, rfl⟩
+  rw [e1] at h1
+  rw [e2] at h2
+  have k1 := congrArg (fun q : Provider => q.duration fb p frm dst t) hpr
+  have k2 := congrArg (fun q : Provider => q.distance fb p frm dst t) hpr
+  exact ⟨by rw [k1, h1]; rfl, by rw [k2, h2]; rfl⟩
 
 /-- **scale_only_on_duration**: the vehicle's scale multiplies the duration and nothing else — a query with scale `s`
     is the query with scale 1 times `s`; the distance does not depend on the scale. All providers, all inputs. -/
@@ -110,13 +113,19 @@ theorem same_for_all_vehicles_of_profile (pr : Provider) (fb : Fallback) (p q : 
 
 /-! ## time-aware routing -/
 
-/-- the setting of the time-aware theorems: an accepted set with timestamps, `n × n` matrices (D1), and pairwise
-    different `u64` keys among the matrices supplied for the vehicle's profile (D2) -/
+/-- the setting of the time-aware theorems: an accepted set with timestamps, `n × n` matrices, and pairwise different
+    `u64` keys among the matrices supplied for the vehicle's profile. Since 0684041 / c805ac8 the last two follow from
+    the first two with `n = pr.size` (`awareCtx_of_build` below): the theorems hold for every accepted timed set. -/
 structure AwareCtx (ms : List MatrixData) (pr : Provider) (n : Nat) (p : Profile) : Prop where
   built : build ms = .ok pr
   timed : ∃ m ∈ ms, m.timestamp.isSome = true
   square : ∀ m ∈ ms, m.durations.length = n * n
   distinct : DistinctKeys (supplied ms p.index)
+
+/-- every accepted timed set is in the setting of the time-aware theorems, for every profile -/
+theorem awareCtx_of_build (ms : List MatrixData) (pr : Provider) (hb : build ms = .ok pr)
+    (ht : ∃ m ∈ ms, m.timestamp.isSome = true) (p : Profile) : AwareCtx ms pr pr.size p :=
+  ⟨hb, ht, (build_ok ms pr hb).2.2.1, (build_timed ms pr hb ht).2.2.2 p.index⟩
 
 theorem AwareCtx.provider {ms pr n p} (c : AwareCtx ms pr n p) : pr = .aware n ms := by
   have := (build_timed ms pr c.built c.timed).1
@@ -316,35 +325,38 @@ theorem specAware_isSome (g : List MatrixData) (hne : g ≠ []) (n frm dst : Nat
         obtain ⟨ru, ri, h3, h4⟩ := hent r (specRight_some g _ r hr).1
         simp [h1, h2, h3]
 
-/-- **provider_eq_spec**: for an accepted set of `n × n` matrices, every in-range query of a vehicle whose profile has
+/-- **provider_eq_spec**: for every accepted set, every in-range query (`n = pr.size`) of a vehicle whose profile has
     matrices equals the executable specification `specDuration` / `specDistance` (the functions the oracle of the
-    correspondence check evaluates on the implementation's answers). Hypotheses: square matrices (D1); for timed
-    sets, pairwise different keys within the profile (D2). -/
-theorem provider_eq_spec (ms : List MatrixData) (pr : Provider) (hb : build ms = .ok pr) (n : Nat)
-    (hsq : ∀ m ∈ ms, m.durations.length = n * n) (p : Profile) (hne : supplied ms p.index ≠ [])
-    (hdk : (∃ m ∈ ms, m.timestamp.isSome = true) → DistinctKeys (supplied ms p.index))
-    (frm dst : Nat) (hf : frm < n) (hd : dst < n) (t : Rat) (fb : Fallback) :
-    pr.duration fb p frm dst t = specDuration ms n p frm dst t ∧
-    pr.distance fb p frm dst t = specDistance ms n p frm dst t := by
+    correspondence check evaluates on the implementation's answers). No further hypotheses: square matrices and pairwise
+    different keys are guaranteed by acceptance. -/
+theorem provider_eq_spec (ms : List MatrixData) (pr : Provider) (hb : build ms = .ok pr)
+    (p : Profile) (hne : supplied ms p.index ≠ [])
+    (frm dst : Nat) (hf : frm < pr.size) (hd : dst < pr.size) (t : Rat) (fb : Fallback) :
+    pr.duration fb p frm dst t = specDuration ms pr.size p frm dst t ∧
+    pr.distance fb p frm dst t = specDistance ms pr.size p frm dst t := by
   unfold specDuration specDistance
+  have hsq := (build_ok ms pr hb).2.2.1
   by_cases ht : ∃ m ∈ ms, m.timestamp.isSome = true
   · -- time-aware
-    have c : AwareCtx ms pr n p := ⟨hb, ht, hsq, hdk ht⟩
-    obtain ⟨_, hall, hlen⟩ := build_timed ms pr hb ht
+    have c : AwareCtx ms pr pr.size p := awareCtx_of_build ms pr hb ht p
+    obtain ⟨_, hall, hlen, _⟩ := build_timed ms pr hb ht
     have hg : groupOf ms p.index ≠ [] := hne
-    obtain ⟨h1, h2⟩ := aware_unfold n ms fb p frm dst t hg
-    obtain ⟨s1, s2⟩ := interp_eq_spec (groupOf ms p.index) c.distinct hg n frm dst t
-    have hent : ∀ m ∈ supplied ms p.index, ∃ du di, entryDur m n frm dst = some du ∧ entryDist m n frm dst = some di :=
+    obtain ⟨h1, h2⟩ := aware_unfold pr.size ms fb p frm dst t hg
+    obtain ⟨s1, s2⟩ := interp_eq_spec (groupOf ms p.index) c.distinct hg pr.size frm dst t
+    have hent : ∀ m ∈ supplied ms p.index, ∃ du di,
+        entryDur m pr.size frm dst = some du ∧ entryDist m pr.size frm dst = some di :=
       fun m hm => by
         obtain ⟨du, di, h1, h2, _, _⟩ := c.entries m hm frm dst hf hd
         exact ⟨du, di, h1, h2⟩
-    obtain ⟨⟨v1, hv1⟩, ⟨v2, hv2⟩⟩ := specAware_isSome (supplied ms p.index) hne n frm dst t hent
+    obtain ⟨⟨v1, hv1⟩, ⟨v2, hv2⟩⟩ := specAware_isSome (supplied ms p.index) hne pr.size frm dst t hent
     have hallg : (supplied ms p.index).all (fun m => m.timestamp.isSome) = true := by
       rw [List.all_eq_true]
       intro m hm
       exact hall m (List.mem_filter.mp hm).1
     have e : groupOf ms p.index = supplied ms p.index := rfl
-    rw [c.provider, h1, h2, s1, s2, e, hv1, hv2]
+    have k1 := congrArg (fun q : Provider => q.duration fb p frm dst t) c.provider
+    have k2 := congrArg (fun q : Provider => q.distance fb p frm dst t) c.provider
+    rw [k1, k2, h1, h2, s1, s2, e, hv1, hv2]
     -- the group has at least two matrices
     match hs : supplied ms p.index, hne with
     | [], h => exact absurd rfl h
@@ -378,8 +390,8 @@ theorem provider_eq_spec (ms : List MatrixData) (pr : Provider) (hb : build ms =
       have hmi : m.index = p.index := by simpa using (List.mem_filter.mp hmem).2
       have hsing := agnostic_supplied ms hrange m hm
       rw [hmi, hs] at hsing
-      obtain ⟨_, du, di, hdu, hdi, h1, h2⟩ :=
-        agnostic_returns_entry ms pr hb hunt n hsq m hm p hmi.symm frm dst hf hd t fb
+      obtain ⟨_, _, du, di, hdu, hdi, h1, h2⟩ :=
+        agnostic_returns_entry ms pr hb hunt m hm p hmi.symm frm dst hf hd t fb
       rw [hsing, h1, h2]
       unfold specGroupDuration specGroupDistance
       simp [hunt m hm, hdu, hdi]
@@ -397,19 +409,18 @@ theorem well_formed_is_served (ms : List MatrixData) (n : Nat) (h : wellFormed m
   obtain ⟨pr, hb, hsize⟩ := build_accepts_well_formed ms n h
   refine ⟨pr, hb, hsize, ?_⟩
   intro p hne frm dst hf hd t fb
-  have hsq : ∀ m ∈ ms, m.durations.length = n * n := by
-    unfold wellFormed at h
-    simp only [Bool.and_eq_true, List.all_eq_true, beq_iff_eq] at h
-    exact fun m hm => (h.1.2 m hm).1
-  exact provider_eq_spec ms pr hb n hsq p hne (fun ht => wellFormed_distinct ms n h ht p.index) frm dst hf hd t fb
+  subst hsize
+  exact provider_eq_spec ms pr hb p hne frm dst hf hd t fb
 
 /-! ## the builder rejects inconsistent sets -/
 
-/-- **builder_rejects_inconsistent**: each class is rejected when the provider is built —
+/-- **builder_rejects_inconsistent_classes**: each class is rejected when the provider is built —
     (1) no matrix; (2) distances and durations of different length; (3) two square matrices of different dimension;
     (4) timed and untimed matrices mixed; (5) a profile twice in an untimed set; (6) a missing profile (an index below
-    the number of matrices without a matrix) in an untimed set; (7) a profile with a single timed matrix. -/
-theorem builder_rejects_inconsistent (ms : List MatrixData) :
+    the number of matrices without a matrix) in an untimed set; (7) a profile with a single timed matrix;
+    (8) a matrix whose number of entries is not a square (0684041); (9) two matrices of one profile with the same
+    timestamp (c805ac8). -/
+theorem builder_rejects_inconsistent_classes (ms : List MatrixData) :
     (ms = [] → ∀ pr, build ms ≠ .ok pr) ∧
     ((∃ m ∈ ms, m.distances.length ≠ m.durations.length) → ∀ pr, build ms ≠ .ok pr) ∧
     ((∃ a ∈ ms, ∃ b ∈ ms, ∃ na nb, a.durations.length = na * na ∧ b.durations.length = nb * nb ∧ na ≠ nb) →
@@ -417,8 +428,11 @@ theorem builder_rejects_inconsistent (ms : List MatrixData) :
     ((∃ a ∈ ms, ∃ b ∈ ms, a.timestamp.isSome = true ∧ b.timestamp = none) → ∀ pr, build ms ≠ .ok pr) ∧
     ((∀ m ∈ ms, m.timestamp = none) → (∃ p, 2 ≤ (supplied ms p).length) → ∀ pr, build ms ≠ .ok pr) ∧
     ((∀ m ∈ ms, m.timestamp = none) → (∃ p, p < ms.length ∧ supplied ms p = []) → ∀ pr, build ms ≠ .ok pr) ∧
-    ((∃ a ∈ ms, a.timestamp.isSome = true ∧ (supplied ms a.index).length = 1) → ∀ pr, build ms ≠ .ok pr) := by
-  refine ⟨?_, ?_, ?_, ?_, ?_, ?_, ?_⟩
+    ((∃ a ∈ ms, a.timestamp.isSome = true ∧ (supplied ms a.index).length = 1) → ∀ pr, build ms ≠ .ok pr) ∧
+    ((∃ m ∈ ms, ∀ k, m.durations.length ≠ k * k) → ∀ pr, build ms ≠ .ok pr) ∧
+    ((∃ a ∈ ms, a.timestamp.isSome = true ∧
+        ((supplied ms a.index).filter (fun x => x.timestamp == a.timestamp)).length ≠ 1) → ∀ pr, build ms ≠ .ok pr) := by
+  refine ⟨?_, ?_, ?_, ?_, ?_, ?_, ?_, ?_, ?_⟩
   · intro h pr hb; rw [h] at hb; cases hb
   · exact builder_rejects_length_mismatch ms
   · rintro ⟨a, ha, b, hb, na, nb, h1, h2, h3⟩
@@ -431,14 +445,15 @@ theorem builder_rejects_inconsistent (ms : List MatrixData) :
     exact builder_rejects_missing_profile ms hunt p hp hmiss
   · rintro ⟨a, ha, h1, h2⟩
     exact builder_rejects_single_timed ms a ha h1 h2
+  · rintro ⟨m, hm, h⟩
+    exact builder_rejects_non_square ms m hm h
+  · rintro ⟨a, ha, h1, h2⟩
+    exact builder_rejects_duplicate_timestamp ms a ha h1 h2
 
-/-- **builder_rejects_inconsistent_partial**: whatever the executable specification `inconsistent` flags is rejected,
-    *provided* every length is a square number (D1) and no profile has two matrices with the same timestamp (D2) —
-    the two classes the builder does not look at (witnesses below). -/
-theorem builder_rejects_inconsistent_partial (ms : List MatrixData) (hinc : inconsistent ms = true)
-    (hsq : ∀ m ∈ ms, ∃ a b, m.durations.length = a * a ∧ m.distances.length = b * b)
-    (hdup : ∀ m ∈ ms, m.timestamp.isSome = true →
-      ((supplied ms m.index).filter (fun m' => m'.timestamp == m.timestamp)).length = 1) :
+/-- **builder_rejects_inconsistent**: whatever the executable specification `inconsistent` flags — no matrix, a matrix that
+    is not `n × n` for the common `n`, timed and untimed matrices mixed, the same (profile, timestamp) twice — is
+    rejected when the provider is built. Unconditional since 0684041 (square check) and c805ac8 (timestamp check). -/
+theorem builder_rejects_inconsistent (ms : List MatrixData) (hinc : inconsistent ms = true) :
     ∀ pr, build ms ≠ .ok pr := by
   intro pr hb
   obtain ⟨hne, hlen, hsz, hcase⟩ := build_ok ms pr hb
@@ -447,20 +462,11 @@ theorem builder_rejects_inconsistent_partial (ms : List MatrixData) (hinc : inco
   | cons first rest =>
     unfold inconsistent at hinc
     simp only [Bool.or_eq_true, Bool.and_eq_true] at hinc
-    -- every matrix is pr.size × pr.size
-    have hdim : ∀ m ∈ first :: rest, m.durations.length = pr.size * pr.size ∧ m.distances.length = pr.size * pr.size := by
-      intro m hm
-      obtain ⟨a, b, ha, _⟩ := hsq m hm
-      have h1 := hsz m hm
-      rw [ha, sqrtRound_sq] at h1
-      rw [hlen m hm, ha, h1]
-      exact ⟨rfl, rfl⟩
     have hn : Nat.sqrt first.durations.length = pr.size := by
-      rw [(hdim first List.mem_cons_self).1, Nat.sqrt_eq]
+      rw [hsz first List.mem_cons_self, Nat.sqrt_eq]
     rcases hinc with (hdimbad | hmixed) | hcount
     · obtain ⟨m, hm, hbad⟩ := List.any_eq_true.mp hdimbad
-      obtain ⟨h1, h2⟩ := hdim m hm
-      rw [hn, h1, h2] at hbad
+      rw [hn, hlen m hm, hsz m hm] at hbad
       simp at hbad
     · obtain ⟨⟨a, ha, hat⟩, ⟨b, hb', hbt⟩⟩ := And.intro (List.any_eq_true.mp hmixed.1) (List.any_eq_true.mp hmixed.2)
       have hbn : b.timestamp = none := by simpa using hbt
@@ -468,9 +474,7 @@ theorem builder_rejects_inconsistent_partial (ms : List MatrixData) (hinc : inco
     · obtain ⟨m, hm, hbad⟩ := List.any_eq_true.mp hcount
       cases hts : m.timestamp with
       | some ts =>
-        have := hdup m hm (by rw [hts]; rfl)
-        rw [this] at hbad
-        simp at hbad
+        exact builder_rejects_duplicate_timestamp _ m hm (by rw [hts]; rfl) (by simpa using hbad) pr hb
       | none =>
         rcases hcase with ⟨_, haw⟩ | ⟨hall, hag⟩
         · have := (newAware_ok _ _ _ haw).2.1 m hm
@@ -480,40 +484,28 @@ theorem builder_rejects_inconsistent_partial (ms : List MatrixData) (hinc : inco
           rw [hsing] at hbad
           simp at hbad
 
-/-- D1: a matrix with 5 entries passes as 2 × 2 (the builder compares rounded square roots) … -/
-theorem builder_accepts_non_square_witness :
-    let m : MatrixData := ⟨0, none, [1, 2, 3, 4, 5], [1, 2, 3, 4, 5]⟩
-    inconsistent [m] = true ∧ build [m] = .ok (.agnostic 2 [m]) := by
+/-- the former acceptance witnesses (a 5-entry matrix passing as 2 × 2, the same timestamp twice, timestamps −50 and
+    −60 sharing the `u64` key 0) are rejected now -/
+theorem repaired_builder_rejects_former_witnesses :
+    build [⟨0, none, [1, 2, 3, 4, 5], [1, 2, 3, 4, 5]⟩] = .error .notSquare ∧
+    build [⟨0, some 5, [1], [1]⟩, ⟨0, some 5, [2], [2]⟩] = .error .duplicateTimestamp ∧
+    (∀ pr, build [⟨0, some (-50), [1], [1]⟩, ⟨0, some (-60), [2], [2]⟩] ≠ .ok pr) := by
   have h5 : sqrtRound 5 = 2 := sqrtRound_add 2 1 (by omega)
-  have hs : Nat.sqrt 5 = 2 := Nat.sqrt_add_eq 2 (by omega : 1 ≤ 2 + 2)
-  constructor
-  · simp [inconsistent, hs]
-  · simp [build, newAgnostic, sortByIndex, indicesAreRange, h5]
-
-/-- … and a 3-entry matrix passes as 2 × 2 too: the pair (1, 1) then has no entry (panic without a fallback) -/
-theorem builder_accepts_short_matrix_witness :
-    let m : MatrixData := ⟨0, none, [1, 2, 3], [1, 2, 3]⟩
-    build [m] = .ok (.agnostic 2 [m]) ∧ (Provider.agnostic 2 [m]).distance none ⟨0, 1⟩ 1 1 0 = none := by
-  have h3 : sqrtRound 3 = 2 := by
-    unfold sqrtRound
-    have : Nat.sqrt 3 = 1 := Nat.sqrt_add_eq 1 (by omega : 2 ≤ 1 + 1)
-    simp [this]
-  constructor
-  · simp [build, newAgnostic, sortByIndex, indicesAreRange, h3]
-  · simp [Provider.distance, distAt, flatIdx, orFallback]
-
-/-- D2: two matrices of one profile with the same timestamp are accepted -/
-theorem builder_accepts_duplicate_timestamp_witness :
-    let a : MatrixData := ⟨0, some 5, [1], [1]⟩
-    let b : MatrixData := ⟨0, some 5, [2], [2]⟩
-    inconsistent [a, b] = true ∧ build [a, b] = .ok (.aware 1 [a, b]) := by
   have h1 : sqrtRound 1 = 1 := sqrtRound_sq 1
-  have hs : Nat.sqrt 1 = 1 := Nat.sqrt_eq 1
-  constructor
-  · simp [inconsistent, supplied, hs]
-  · simp [build, newAware, groupOf, h1]
+  refine ⟨?_, ?_, ?_⟩
+  · simp [build, h5]
+  · have hsort : sortByKey [⟨0, some 5, [1], [1]⟩, ⟨0, some 5, [2], [2]⟩] =
+        [⟨0, some 5, [1], [1]⟩, ⟨0, some 5, [2], [2]⟩] := by
+      unfold sortByKey; apply List.mergeSort_of_pairwise; simp [MatrixData.key]
+    simp [build, newAware, groupOf, h1, hsort, adjacentEqual, MatrixData.key]
+  · intro pr hb
+    have hd := (build_timed _ pr hb ⟨_, List.mem_cons_self, rfl⟩).2.2.2 0
+    have : (⟨0, some (-50), [1], [1]⟩ : MatrixData).key ≠ (⟨0, some (-60), [2], [2]⟩ : MatrixData).key := by
+      have := (List.pairwise_cons.mp (show DistinctKeys [⟨0, some (-50), [1], [1]⟩, ⟨0, some (-60), [2], [2]⟩] from hd)).1
+      exact this _ List.mem_cons_self
+    exact this (by decide)
 
-/-- D2 (truncation): different negative timestamps share the `u64` key 0 -/
+/-- different negative timestamps share the `u64` key 0 (`as u64` saturates) — such sets are rejected as duplicates -/
 theorem negative_timestamps_share_key : keyOfInt (-50) = keyOfInt (-60) ∧ keyOfInt (-50) = 0 := by decide
 
 /-! ## the pragmatic reader -/
@@ -535,19 +527,18 @@ theorem toMatrixDataAll_mem (profiles : List String) (ms : List ApiMatrix) (k : 
     · obtain ⟨m', hm', idx, hidx⟩ := ih (k + 1) ds hds x e
       exact ⟨m', List.mem_cons_of_mem _ hm', idx, hidx⟩
 
-/-- **reader_maps_by_name**: through the pragmatic reader (any of the three S28 variants), a vehicle whose profile is
-    `v.matrix` is routed on the matrices **named** `v.matrix` (for unnamed matrices: the one at the profile's position),
-    with unreachable entries as −1 — every in-range query equals the executable specification `specReader*`.
-    Hypotheses: every matrix name is a fleet profile (**S28**, witness below), `n × n` data (D1), pairwise different keys
-    among the matrices of the name (D2), and the name has matrices. -/
+/-- **reader_maps_by_name**: through the pragmatic reader (any variant), a vehicle whose profile is `v.matrix` is routed
+    on the matrices **named** `v.matrix` (for unnamed matrices: the one at the profile's position), with unreachable
+    entries as −1 — every in-range query (`n = pr.size`) equals the executable specification `specReader*`.
+    Hypothesis: every matrix name is a fleet profile (a set in which *no* name is one is mapped by position: documented
+    behaviour, `reader_all_unknown_is_positional`; mixes are rejected), and the name has matrices. -/
 theorem reader_maps_by_name (mode : ReaderMode) (profiles : List String) (ms : List ApiMatrix) (pr : Provider)
     (h : createTransportCosts mode profiles ms = .ok pr) (hknown : namesKnown profiles ms = true)
-    (n : Nat) (hsq : ∀ m ∈ ms, (unreachableApplied m).1.length = n * n)
     (v : ApiVehicle) (p : Profile) (hv : vehicleProfile profiles v = some p)
-    (hne : namedFor profiles ms v.matrix ≠ []) (hdk : DistinctKeys (namedFor profiles ms v.matrix))
-    (frm dst : Nat) (hf : frm < n) (hd : dst < n) (t : Rat) :
-    pr.duration none p frm dst t = specReaderDuration profiles ms n v frm dst t ∧
-    pr.distance none p frm dst t = specReaderDistance profiles ms n v frm dst t := by
+    (hne : namedFor profiles ms v.matrix ≠ [])
+    (frm dst : Nat) (hf : frm < pr.size) (hd : dst < pr.size) (t : Rat) :
+    pr.duration none p frm dst t = specReaderDuration profiles ms pr.size v frm dst t ∧
+    pr.distance none p frm dst t = specReaderDistance profiles ms pr.size v frm dst t := by
   obtain ⟨hall, data, hdata, hb⟩ := createTransportCosts_ok mode profiles ms pr h
   unfold vehicleProfile at hv
   cases hi : profileIndex profiles v.matrix with
@@ -557,59 +548,14 @@ theorem reader_maps_by_name (mode : ReaderMode) (profiles : List String) (ms : L
     simp only [Option.map_some] at hv
     cases hv
     have hsup := supplied_eq_namedFor mode profiles ms data hall hdata hknown v.matrix i hi
-    have hsq' : ∀ d ∈ data, d.durations.length = n * n := fun d hd => by
-      obtain ⟨m, hm, idx, hdm⟩ := toMatrixDataAll_mem profiles ms 0 data hdata d hd
-      rw [hdm]; exact hsq m hm
-    obtain ⟨h1, h2⟩ := provider_eq_spec data pr hb n hsq' ⟨i, v.scale.getD 1⟩ (by simp only; rw [hsup]; exact hne)
-      (fun _ => by simp only; rw [hsup]; exact hdk) frm dst hf hd t none
+    obtain ⟨h1, h2⟩ := provider_eq_spec data pr hb ⟨i, v.scale.getD 1⟩ (by simp only; rw [hsup]; exact hne)
+      frm dst hf hd t none
     rw [h1, h2]
     unfold specDuration specDistance specReaderDuration specReaderDistance
     simp only [hsup]
     exact ⟨trivial, trivial⟩
 
-/-- S28: fleet profiles `[car, truck]`, matrices named `[car, bike]`: the reader (as it stands) accepts the set and routes
-    the `truck` vehicle on the data of `bike` (distance 100), although no matrix is named `truck`. -/
-theorem reader_positional_witness :
-    let car : ApiMatrix := ⟨some "car", none, [1, 1, 1, 1], [1, 1, 1, 1], none⟩
-    let bike : ApiMatrix := ⟨some "bike", none, [100, 100, 100, 100], [100, 100, 100, 100], none⟩
-    let profiles := ["car", "truck"]
-    let truck : Profile := ⟨1, 1⟩
-    namesKnown profiles [car, bike] = false ∧
-    profileIndex profiles "truck" = some truck.index ∧
-    namedFor profiles [car, bike] "truck" = [] ∧
-    ∃ pr, createTransportCosts .positional profiles [car, bike] = .ok pr ∧
-      pr.distance none truck 0 1 0 = some 100 := by
-  have h4 : sqrtRound 4 = 2 := sqrtRound_sq 2
-  refine ⟨by decide, by decide, by decide, ?_⟩
-  refine ⟨.agnostic 2 [⟨0, none, [1, 1, 1, 1], [1, 1, 1, 1]⟩, ⟨1, none, [100, 100, 100, 100], [100, 100, 100, 100]⟩], ?_, ?_⟩
-  · have hmap : profileIndexMap ["car", "truck"] [] = [("car", 0), ("truck", 1)] := by decide
-    have hdata : toMatrixDataAll ["car", "truck"] 0
-        [⟨some "car", none, [1, 1, 1, 1], [1, 1, 1, 1], none⟩,
-         ⟨some "bike", none, [100, 100, 100, 100], [100, 100, 100, 100], none⟩] =
-        some [⟨0, none, [1, 1, 1, 1], [1, 1, 1, 1]⟩, ⟨1, none, [100, 100, 100, 100], [100, 100, 100, 100]⟩] := by decide
-    have hcount : distinctCount [0, 1] = 2 := by decide
-    unfold createTransportCosts
-    have hsort : sortByIndex [⟨0, none, [1, 1, 1, 1], [1, 1, 1, 1]⟩, ⟨1, none, [100, 100, 100, 100], [100, 100, 100, 100]⟩] =
-        [⟨0, none, [1, 1, 1, 1], [1, 1, 1, 1]⟩, ⟨1, none, [100, 100, 100, 100], [100, 100, 100, 100]⟩] := by
-      unfold sortByIndex
-      apply List.mergeSort_of_pairwise
-      simp
-    simp only [hmap, hdata]
-    simp [build, newAgnostic, hsort, indicesAreRange, h4, hcount]
-  · simp [Provider.distance, distAt, flatIdx, orFallback]
-
-/-- after `fixes/S28.patch` (`strict`): a matrix named after something that is not a fleet profile is rejected -/
-theorem unknown_name_rejected_strict (profiles : List String) (ms : List ApiMatrix)
-    (h : namesKnown profiles ms = false) : ∀ pr, createTransportCosts .strict profiles ms ≠ .ok pr := by
-  intro pr hc
-  unfold createTransportCosts at hc
-  split at hc
-  · cases hc
-  · split at hc
-    · cases hc
-    · simp [h] at hc
-
-/-- after `fixes/S28-alt.patch` (`noMix`): fleet profile names mixed with other names are rejected -/
+/-- the reader as it stands (`noMix`, 83519b0): fleet profile names mixed with other names are rejected -/
 theorem mixed_known_names_rejected_noMix (profiles : List String) (ms : List ApiMatrix)
     (h0 : knownCount profiles ms ≠ 0) (h1 : knownCount profiles ms ≠ ms.length) :
     ∀ pr, createTransportCosts .noMix profiles ms ≠ .ok pr := by
@@ -632,6 +578,70 @@ theorem mixed_known_names_rejected_noMix (profiles : List String) (ms : List Api
                   knownCount profiles ms != ms.length) = true := by simp [h0, h1]
               rw [if_pos hcond] at hc
               cases hc
+
+/-- regression variant `ReaderMode.positional` (the reader before 83519b0, restored by mutant `C16-q`): fleet profiles
+    `[car, truck]`, matrices named `[car, bike]` were accepted and the `truck` vehicle routed on the data of `bike`
+    (distance 100), although no matrix is named `truck`; the reader as it stands (`noMix`) rejects the set. -/
+theorem reader_positional_witness :
+    let car : ApiMatrix := ⟨some "car", none, [1, 1, 1, 1], [1, 1, 1, 1], none⟩
+    let bike : ApiMatrix := ⟨some "bike", none, [100, 100, 100, 100], [100, 100, 100, 100], none⟩
+    let profiles := ["car", "truck"]
+    let truck : Profile := ⟨1, 1⟩
+    namesKnown profiles [car, bike] = false ∧
+    profileIndex profiles "truck" = some truck.index ∧
+    namedFor profiles [car, bike] "truck" = [] ∧
+    (∃ pr, createTransportCosts .positional profiles [car, bike] = .ok pr ∧
+      pr.distance none truck 0 1 0 = some 100) ∧
+    ∀ pr, createTransportCosts .noMix profiles [car, bike] ≠ .ok pr := by
+  have h4 : sqrtRound 4 = 2 := sqrtRound_sq 2
+  refine ⟨by decide, by decide, by decide, ?_, ?_⟩
+  · refine ⟨.agnostic 2 [⟨0, none, [1, 1, 1, 1], [1, 1, 1, 1]⟩, ⟨1, none, [100, 100, 100, 100], [100, 100, 100, 100]⟩], ?_, ?_⟩
+    · have hmap : profileIndexMap ["car", "truck"] [] = [("car", 0), ("truck", 1)] := by decide
+      have hdata : toMatrixDataAllE ["car", "truck"] 0
+          [⟨some "car", none, [1, 1, 1, 1], [1, 1, 1, 1], none⟩,
+           ⟨some "bike", none, [100, 100, 100, 100], [100, 100, 100, 100], none⟩] =
+          .ok [⟨0, none, [1, 1, 1, 1], [1, 1, 1, 1]⟩, ⟨1, none, [100, 100, 100, 100], [100, 100, 100, 100]⟩] := by rfl
+      have hcount : distinctCount [0, 1] = 2 := by decide
+      have hsort : sortByIndex [⟨0, none, [1, 1, 1, 1], [1, 1, 1, 1]⟩, ⟨1, none, [100, 100, 100, 100], [100, 100, 100, 100]⟩] =
+          [⟨0, none, [1, 1, 1, 1], [1, 1, 1, 1]⟩, ⟨1, none, [100, 100, 100, 100], [100, 100, 100, 100]⟩] := by
+        unfold sortByIndex
+        apply List.mergeSort_of_pairwise
+        simp
+      unfold createTransportCosts
+      simp only [hmap, hdata]
+      simp [build, newAgnostic, hsort, indicesAreRange, h4, hcount]
+    · simp [Provider.distance, distAt, flatIdx, orFallback]
+  · exact mixed_known_names_rejected_noMix _ _ (by decide) (by decide)
+
+/-- **documented positional behaviour** (stream `S28u`, pinned by the repository's `fleet_reader_test` positive case01):
+    when *no* matrix name is a fleet profile the names are ignored and the matrices are mapped by their position, like
+    unnamed ones — fleet `[car]` with one matrix named `car1` is accepted and the `car` vehicle is routed on it. -/
+theorem reader_all_unknown_is_positional :
+    let m : ApiMatrix := ⟨some "car1", none, [0, 3, 5, 0], [0, 30, 50, 0], none⟩
+    namesKnown ["car"] [m] = false ∧ knownCount ["car"] [m] = 0 ∧
+    ∃ pr, createTransportCosts .noMix ["car"] [m] = .ok pr ∧ pr.distance none ⟨0, 1⟩ 0 1 0 = some 30 := by
+  have h4 : sqrtRound 4 = 2 := sqrtRound_sq 2
+  refine ⟨by decide, by decide, .agnostic 2 [⟨0, none, [0, 3, 5, 0], [0, 30, 50, 0]⟩], ?_, ?_⟩
+  · have hmap : profileIndexMap ["car"] [] = [("car", 0)] := by decide
+    have hdata : toMatrixDataAllE ["car"] 0 [⟨some "car1", none, [0, 3, 5, 0], [0, 30, 50, 0], none⟩] =
+        .ok [⟨0, none, [0, 3, 5, 0], [0, 30, 50, 0]⟩] := by rfl
+    have hcount : distinctCount [0] = 1 := by decide
+    have hk : knownCount ["car"] [⟨some "car1", none, [0, 3, 5, 0], [0, 30, 50, 0], none⟩] = 0 := by decide
+    unfold createTransportCosts
+    simp only [hmap, hdata, hk]
+    simp [build, newAgnostic, sortByIndex, indicesAreRange, h4, hcount]
+  · simp [Provider.distance, distAt, flatIdx, orFallback]
+
+/-- the rejected alternative `fixes/S28.patch` (`strict`): any name that is not a fleet profile is an error -/
+theorem unknown_name_rejected_strict (profiles : List String) (ms : List ApiMatrix)
+    (h : namesKnown profiles ms = false) : ∀ pr, createTransportCosts .strict profiles ms ≠ .ok pr := by
+  intro pr hc
+  unfold createTransportCosts at hc
+  split at hc
+  · cases hc
+  · split at hc
+    · cases hc
+    · simp [h] at hc
 
 /-- **unreachable_is_negative**: an entry whose error code is positive reaches the provider as −1, in the durations
     and in the distances (so a query for it returns `−scale` and `−1`: negative for every positive scale). -/
@@ -765,8 +775,8 @@ end Haversine
 
 /-! ## the location of custom type `unknown` -/
 
-/-- when the locations use every matrix index (`d = n` distinct locations for an `n × n` matrix), the index `n * n`
-    given to the unknown location falls outside the matrix on either side of a pair, so the zero fallback answers -/
+/-- the index `n * n` given to the unknown location (`n = max_matrix_index + 1`, the matrix size E1504 enforces) falls
+    outside the matrix on either side of a pair, so the zero fallback answers — for dense and for sparse indices (a68e4cc) -/
 theorem unknown_index_outside (n f t : Nat) : n * n ≤ flatIdx n f (n * n) ∧ n * n ≤ flatIdx n (n * n) t := by
   unfold flatIdx
   constructor
@@ -776,7 +786,14 @@ theorem unknown_index_outside (n f t : Nat) : n * n ≤ flatIdx n f (n * n) ∧ 
     · have : n * n * 1 ≤ n * n * n := Nat.mul_le_mul_left _ h
       omega
 
-/-- a pair with the unknown location (dense indices) is answered with the fallback: zero distance, zero duration -/
+/-- `customIndex` is that index: the square of the matrix size the locations need -/
+theorem customIndex_outside (locs : List Nat) (n : Nat) (h : locs.foldl max 0 + 1 = n) (f t : Nat) :
+    customIndex locs = n * n ∧ n * n ≤ flatIdx n f (customIndex locs) ∧ n * n ≤ flatIdx n (customIndex locs) t := by
+  have e : customIndex locs = n * n := by unfold customIndex; rw [h]
+  rw [e]
+  exact ⟨rfl, unknown_index_outside n f t⟩
+
+/-- a pair with the unknown location is answered with the fallback: zero distance, zero duration -/
 theorem unknown_location_zero (m : MatrixData) (n : Nat) (hd : m.durations.length = n * n)
     (hx : m.distances.length = n * n) (i : Nat) (s : Rat) (f t : Nat) (h : f = n * n ∨ t = n * n) (at_ : Rat) :
     (Provider.agnostic n [m]).duration unknownFallback ⟨0, s⟩ f t at_ = some 0 ∧
@@ -789,12 +806,8 @@ theorem unknown_location_zero (m : MatrixData) (n : Nat) (hd : m.durations.lengt
   have h2 : m.distances[flatIdx n f t]? = none := List.getElem?_eq_none (by omega)
   simp [Provider.duration, Provider.distance, durAt, distAt, h1, h2, orFallback, unknownFallback]
 
-/-- D3: with matrix indices `{0, 3}` (a 4 × 4 matrix) the unknown location gets index 2 · 2 = 4, and the pair
-    `(0, unknown)` addresses the entry of `(1, 0)` instead of the fallback -/
-theorem unknown_index_collision_witness :
-    customIndex [0, 3] = 4 ∧ flatIdx 4 0 (customIndex [0, 3]) = flatIdx 4 1 0 ∧ flatIdx 4 0 (customIndex [0, 3]) < 4 * 4 := by
-  have h : customIndex [0, 3] = 4 := by decide
-  refine ⟨h, ?_, ?_⟩ <;> rw [h] <;> decide
+/-- the former collision witness: with matrix indices `{0, 3}` (a 4 × 4 matrix) the unknown location now gets index 16 -/
+example : customIndex [0, 3] = 16 ∧ 4 * 4 ≤ flatIdx 4 0 (customIndex [0, 3]) := by decide
 
 /-! ## non-vacuity: concrete inputs that meet the hypotheses -/
 
@@ -829,7 +842,13 @@ example : AwareCtx [exR, exL] (.aware 1 [exR, exL]) 1 ⟨0, 3 / 2⟩ ∧ Bracket
     exL.key < keyOfRat ((2 : Int) : Rat) ∧ keyOfRat ((2 : Int) : Rat) < exR.key := by
   have h1 : sqrtRound 1 = 1 := sqrtRound_sq 1
   refine ⟨⟨?_, ⟨exR, by simp, rfl⟩, by simp [exL, exR], ?_⟩, ⟨by simp [supplied, exL, exR], by simp [supplied, exL, exR], ?_⟩, ?_, ?_⟩
-  · simp [build, newAware, groupOf, h1, exL, exR]
+  · have hd : DistinctKeys (groupOf [exR, exL] 0) := by
+      simp [DistinctKeys, groupOf, exL, exR, MatrixData.key, keyOfInt]
+    have hadj := sorted_check_of_distinctKeys _ hd
+    have hg : groupOf [exR, exL] 0 = [exR, exL] := by simp [groupOf, exL, exR]
+    rw [hg] at hadj
+    simp only [exL, exR] at hadj
+    simp [build, newAware, groupOf, h1, exL, exR, hadj]
   · simp [DistinctKeys, supplied, exL, exR, MatrixData.key, keyOfInt]
   · intro x hx
     simp [supplied, exL, exR] at hx
@@ -846,8 +865,8 @@ example : wellFormed [exB, exA] 2 = true ∧ wellFormed [exR, exL] 1 = true := b
     rcases this with h | h <;> subst h <;> simp
   · simp [wellFormed, supplied, exL, exR, MatrixData.key, keyOfInt]
 
-/-- `builder_rejects_inconsistent_partial`: the same profile twice in an untimed set is flagged by the specification
-    and meets both side conditions -/
+/-- `builder_rejects_inconsistent`: the same profile twice in an untimed set is flagged by the specification
+    (and consists of square matrices) -/
 example : inconsistent [⟨0, none, [1], [1]⟩, ⟨0, none, [2], [2]⟩] = true ∧
     (∀ m ∈ ([⟨0, none, [1], [1]⟩, ⟨0, none, [2], [2]⟩] : List MatrixData),
       ∃ a b, m.durations.length = a * a ∧ m.distances.length = b * b) := by
